@@ -4,7 +4,7 @@
    line-level interleaving semantics lts_step and a sequential reading sq_step), specification:
    C16/Spec.v.  code_now = the code in /repo (commit 7b727b3), code_before_fix / code_pre1948 =
    the wrapper before that commit / before the issue-1948 handler. *)
-From PV Require Import Base.Bytes C16.Spec C16.Proofs Gen.C16_Tables.
+From PV Require Import Base.Bytes C16.Spec C16.Mgr C16.Proofs Gen.C16_Tables.
 Local Open Scope nat_scope.
 
 (* ---- one thread: every history of enter / exit / nested enter / exception in the body / method
@@ -326,3 +326,33 @@ Theorem C16_block_owner_holds_lock : forall f progs c i th,
   exists m, lock (c_sh c) = Some (i, m).
 Proof. exact block_owner_holds_lock. Qed.
 Print Assumptions C16_block_owner_holds_lock.
+
+(* ---- oneshot() manager OBJECTS: creation is an event of its own (Mgr.v: GCreate k / GEnter k / GExit k; the
+   branch -- real block or nested no-op -- is taken at ENTER time from the state of the object at that moment and
+   stays with that manager until it is left).  Every history inside the domain (each manager created before it is
+   entered, entered once, left in LIFO order: what `with a: ... with b:` and ExitStack.enter_context can express)
+   over any number of managers, created at any earlier moment -- up front, inside another open block, never
+   entered at all -- gives call by call the answers, read counts, cache pointers and lock state of the same
+   history written with `with p.oneshot():` at the point of entry ... *)
+Theorem C16_precreated_same_as_with : forall f h g,
+  g_run h (g_init f) = Some g ->
+  gs_q g = sq_run (sq_init f) (flat_map Mgr.erase h).
+Proof. exact precreated_same_as_with. Qed.
+Print Assumptions C16_precreated_same_as_with.
+
+(* ... the same stated inside the manager model: moving every creation to the point of entry stays inside the
+   domain and changes nothing ... *)
+Theorem C16_precreated_same_as_created_at_entry : forall f h g,
+  g_run h (g_init f) = Some g ->
+  exists g', g_run (inline h) (g_init f) = Some g' /\ gs_q g' = gs_q g /\ gs_open g' = gs_open g.
+Proof. exact precreated_same_as_created_at_entry. Qed.
+Print Assumptions C16_precreated_same_as_created_at_entry.
+
+(* ... and therefore what the specification's ghost machine demands (first read of the block, one read per
+   record, fresh data after the outermost exit, nesting changes nothing). *)
+Theorem C16_precreated_block_first_read : forall f h g rs,
+  g_run h (g_init f) = Some g ->
+  spec_run f (flat_map Mgr.erase h) = Some rs ->
+  map proj_res (rev (q_res (gs_q g))) = rs.
+Proof. exact precreated_block_first_read. Qed.
+Print Assumptions C16_precreated_block_first_read.
